@@ -101,7 +101,12 @@ pub fn run_scenario(case: &DispatchCase, require_faithful: bool) -> Result<Dispa
                 members.push(i);
                 est.push(net);
             }
-            Ok(Err(e)) => dropped.push((i, format!("est_err:{}", msg_class(e.lines().last().unwrap_or(""), 40)))),
+            Ok(Err(e)) => {
+                if std::env::var("VERIF_DUMP").is_ok() {
+                    eprintln!("DUMP est_err train {i}: {e}");
+                }
+                dropped.push((i, format!("est_err:{}", msg_class(e.lines().last().unwrap_or(""), 40))))
+            }
             Err(p) => dropped.push((i, format!("est_panic:{}", p.class()))),
         }
     }
@@ -492,7 +497,7 @@ macro_rules! disp_prop {
         impl $name {
             fn gen(g: &mut Gen, tier: Tier) -> DispatchCase {
                 let max_trains = if tier == Tier::Thorough { 12 } else { 10 };
-                gen_dispatch_case(g, max_trains, &CorridorOpts { p_lockout: 0.25, ..Default::default() })
+                gen_dispatch_case(g, max_trains, &CorridorOpts { p_lockout: 0.25, p_branch: 0.3, ..Default::default() })
             }
             fn check(c: &DispatchCase, cx: &mut Ctx) {
                 $check(c, cx)
